@@ -129,6 +129,10 @@ def generate(method, repo, maxorder=None):
         crosscheck = "agrees" if not bad else "differs"
         lines.append("proof fn map_matches_code() ensures %s { assert(%s) by (compute_only); }" % (("1int == 1int", "1int == 1int") if not bad else ("false", "1int == 2int")))
         lemmas.append(("map_matches_code", "the tableau used by solve() is the one the lemmas are stated for" + ("" if not bad else ": %s is %s in the map and %s in the code" % (bad[0][0], bad[0][1], bad[0][2]))))
+    except StageTime as e:
+        crosscheck = "differs"
+        lines.append("proof fn map_matches_code() ensures false { assert(1int == 2int) by (compute_only); }")
+        lemmas.append(("map_matches_code", "every stage is evaluated at (start of the step) + c_i*h: " + str(e)))
     except Exception as e:
         crosscheck = "not available (%s)" % (str(e)[:80],)
     for (i, j), v in sorted(A.items()):
@@ -216,10 +220,15 @@ def generate(method, repo, maxorder=None):
 IMPLS = {"rk4": "RK4", "rk23": "RK23", "dopri5": "DOPRI5", "dop853": "DOP853"}
 DENSE_ORDER = {"rk4": 3, "rk23": 3, "dopri5": 4, "dop853": 7}     # q of property C07: the interpolant's error is O(h^(q+1))
 
+class StageTime(Exception):
+    pass
+
 def extract(method, repo):
     """tableau and continuous weights recovered from the code by symbolic execution (coef/symstep.py)"""
     from coef import symstep
     r = symstep.analyse(repo, FILES[method], IMPLS[method])
+    if r.get("bad"):
+        raise StageTime(r["bad"][0])
     S = len(r["stages"])
     A = {}; c = {}
     for i, (_, cp, row) in enumerate(r["stages"], 1):
@@ -249,7 +258,11 @@ def extract(method, repo):
 
 @lru_cache(None)
 def generate_dense(method, repo):
-    S, A, b, c, bt, ycoef = extract(method, repo)
+    try:
+        S, A, b, c, bt, ycoef = extract(method, repo)
+    except StageTime as e:
+        text = "use vstd::prelude::*;\nverus! {\npub open spec fn D() -> int { 1int }\nproof fn stage_times() ensures false { assert(1int == 2int) by (compute_only); }\n} // verus!\nfn main() {}\n"
+        return text, [("stage_times", "every stage is evaluated at (start of the step) + c_i*h: " + str(e))], {"stages": 0}
     q = DENSE_ORDER[method]
     allv = list(A.values()) + [v for d in bt.values() for v in d.values()]
     D = 1
